@@ -21,6 +21,7 @@
 -/
 import Gts.Lemmas.Fasta
 import Gts.Bridge.FastaWrite
+import Gts.Bridge.FastaRead
 import Gts.Lemmas.FastaAutoMixed
 import Gts.Spec.CliWriters
 namespace Gts.C17
@@ -306,6 +307,54 @@ theorem gen_genbank_to_fasta (auto : Bool) (gbf : Gen.GbFields.GenBankFields) (b
 /-- non-vacuity: a description on one line, residues without `>`, the next record behind; a sliced record -/
 example : descOk [105, 100] = true ∧ resOk (List.replicate 71 65) = true ∧ recEnd [62, 120, 10] = true ∧
     noCR (fastaDescOfGenBank [86] [100, 10, 101] (some (2, 9))) = true := by decide +kernel
+
+/-! ### the REGENERATED Map function of the reader (go2lean gfastard.go: `Gts/Gen/FastaRead.lean`, `Gts/Bridge/FastaRead.lean`) -/
+
+/-- **`FastaParser` is the sequence followed by the Map function of the tree.**  On every input, every
+backtracking stack and whatever token the `'>'` child carries: the model's `fastaParse` does what the model's
+sequence `fastaSeq` (`pars.Seq('>', pars.Line, pars.Until(pars.Any('>', pars.End)))`) does, and on success
+returns what the REGENERATED Map function stores for the children (`'>'`, description line, body); that function
+never panics there. -/
+theorem gen_parse_eq_seq_map (t gtTok : Bytes) (stk : List Bytes) :
+    fastaParse.run' ⟨t, stk⟩ =
+      match fastaSeq.run' ⟨t, stk⟩ with
+      | (.ok (desc, body), s') =>
+        (match Gen.FastaRead.fastaMap [gtTok, desc, body] with
+         | some v => (.ok v, s')
+         | none => (.error .panic, s'))
+      | (.error e, s') => (.error e, s') := by
+  rw [run'_eq, run'_eq, fastaParse_run, fastaSeq_run]
+  cases t with
+  | nil => rfl
+  | cons c t' =>
+    by_cases hc : (c == 62) = true
+    · simp only [hc, if_true, Bridge.fastaMap_seq]
+    · simp only [hc, if_false, Bool.false_eq_true]
+
+/-- **Write, then read, one record — the Map function of the tree.**  On the output of `Fasta.WriteTo` followed
+by nothing or by the next record, the sequence of `FastaParser` stops exactly in front of what follows with the
+description and a body token on which the regenerated Map function stores exactly `Fasta{d, r}`. -/
+theorem gen_map_parse_write_one (d r rest gtTok : Bytes) (stk : List Bytes)
+    (hd : descOk d = true) (hr : resOk r = true) (hrest : recEnd rest = true) :
+    ∃ body, fastaSeq.run' ⟨fastaWrite d r ++ rest, stk⟩ = (.ok (d, body), ⟨rest, stk⟩) ∧
+      Gen.FastaRead.fastaMap [gtTok, d, body] = some (d, r) := by
+  have h := parse_write_one d r rest stk hd hr hrest
+  rw [gen_parse_eq_seq_map _ gtTok] at h
+  generalize fastaSeq.run' ⟨fastaWrite d r ++ rest, stk⟩ = o at h
+  obtain ⟨res, s'⟩ := o
+  cases res with
+  | error e => simp at h
+  | ok v =>
+    obtain ⟨desc, body⟩ := v
+    simp only [Bridge.fastaMap_seq, Prod.mk.injEq, Except.ok.injEq] at h
+    obtain ⟨⟨h1, h2⟩, h3⟩ := h
+    subst h1 h3
+    exact ⟨body, rfl, by rw [Bridge.fastaMap_seq, h2]⟩
+
+/-- non-vacuity: the regenerated Map function on a CRLF body with a `>`-free tail; the hypotheses of
+`gen_map_parse_write_one` are those of `parse_write_one` (instance above) -/
+example : Gen.FastaRead.fastaMap [[62], [105, 100], [65, 67, 13, 10, 71, 13, 10]] = some ([105, 100], [65, 67, 71]) ∧
+    Gen.FastaRead.fastaMap [[62], [105, 100]] = none := by decide +kernel
 
 /-! ### the real auto scanner (`seqio.NewAutoScanner` with the whole GenBank reader) -/
 
